@@ -303,6 +303,8 @@ func (l *loopback) send(msg []byte) (got [][]byte, problem string) {
 	return l.got, ""
 }
 
+var c07Points int
+
 // c07Point runs one constructor call on the implementation: signature for the tie, oracle entries.
 func c07Point(buf []int32, kind string, a, b, c int, mv *midiView) (sig []int32, oracle []string) {
 	var m midi.Message
@@ -321,6 +323,12 @@ func c07Point(buf []int32, kind string, a, b, c int, mv *midiView) (sig []int32,
 	buf = append(buf, int32(len(m)))
 	for _, x := range m {
 		buf = append(buf, int32(x))
+	}
+	retain(kind, m)
+	if c07Points++; c07Points%64 == 0 {
+		if msg := retainCheck(); msg != "" {
+			bad("%s", msg)
+		}
 	}
 	var p string
 	func() {
